@@ -9,6 +9,7 @@ import warnings
 
 from vf import ref_schema as S
 from vf import universe as U
+from vf.core import disturb_process
 from vf.core import disturb_class
 from vf.core import vacuous, HarnessError, Tally
 
@@ -169,6 +170,7 @@ def edit_and_recheck(t, cl, cls, term, inst, vf):
 
 def work(chunk):
     t = Tally()
+    disturb_process()
     cl = client()
     for clsname, basekind, k, substates, allversions, rot in chunk:
         cls = U.cls_by_name(clsname)
